@@ -74,14 +74,24 @@ def _alarm(signum, frame):
 def run_assignor(A, kind, parts, members, user_data=None, limit_s=5.0):
     """runs assign() under a wall-clock limit (pure Python, so SIGALRM interrupts it);
     AssignorHang = the loop did not finish: non-termination is itself a finding"""
+    return with_cpu_limit(lambda: _run_assignor(A, kind, parts, members, user_data), limit_s)
+
+
+def with_cpu_limit(fn, limit_s):
+    """run fn() under a limit on the CPU time of this process (ITIMER_VIRTUAL: immune to the machine
+    being busy); a first expiry is re-tried once with a ten times larger limit before it counts"""
     import signal
-    old = signal.signal(signal.SIGALRM, _alarm)
-    signal.setitimer(signal.ITIMER_REAL, limit_s)
-    try:
-        return _run_assignor(A, kind, parts, members, user_data)
-    finally:
-        signal.setitimer(signal.ITIMER_REAL, 0)
-        signal.signal(signal.SIGALRM, old)
+    for lim in (limit_s, limit_s * 10):
+        old = signal.signal(signal.SIGVTALRM, _alarm)
+        signal.setitimer(signal.ITIMER_VIRTUAL, lim)
+        try:
+            return fn()
+        except AssignorHang:
+            if lim != limit_s:
+                raise
+        finally:
+            signal.setitimer(signal.ITIMER_VIRTUAL, 0)
+            signal.signal(signal.SIGVTALRM, old)
 
 
 def _run_assignor(A, kind, parts, members, user_data=None):
